@@ -101,6 +101,7 @@ def run_property(prop: str, tier: str, seed: int, repo: str) -> dict[str, Any]:
         "vacuity": {"contracts": len(mine), "contracts_with_obligations": 0, "covers": 0, "covers_sat": 0},
     }
     needs_input: set = set()
+    replays: dict = {}
     for res in results:
         con = all_contracts[res["contract"]]
         if res.get("engine_error"):
@@ -153,7 +154,10 @@ def run_property(prop: str, tier: str, seed: int, repo: str) -> dict[str, Any]:
                 viol = {"kind": "deductive", "obligation": ob["name"], "contract": res["contract"],
                         "target": res["target"], "model": ob["model"], "detail": ob["detail"],
                         "solver_output": f"z3 sat; model {json.dumps(ob['model'])}", "has_input": False}
-                if ob["input_only"] and ob["model"]:
+                replays[res["contract"]] = replays.get(res["contract"], 0) + 1
+                if replays[res["contract"]] > 30:
+                    continue       # enough refuted obligations of this contract reported (all are counted as failed)
+                if ob["input_only"] and ob["model"] and replays[res["contract"]] <= 6:
                     rep = native_replay(repo, res["contract"], ob["model"])
                     viol["native_replay"] = rep
                     if rep.get("status") == "reproduced":
